@@ -296,7 +296,7 @@ fn huge(ctx: &mut Ctx) {
                         let l2 = (1usize << 59) + rng.below(100);
                         v.push((pos, l2));
                         pos += l2;
-                        for _ in 0..(240 + rng.below(200)) {
+                        for _ in 0..(if cfg!(miri) { 40 } else { 240 + rng.below(200) }) {
                             let gap = 1 + rng.below(6);
                             let l = 1 + rng.below(6);
                             v.push((pos + gap, l));
@@ -307,7 +307,7 @@ fn huge(ctx: &mut Ctx) {
                     5 => {                                                          // many mid-size runs up to the end
                         let mut v = Vec::new();
                         let mut pos = rng.below(3);
-                        let k = 10 + rng.below(600);
+                        let k = 10 + rng.below(if cfg!(miri) { 30 } else { 600 });
                         let unit = n / (2 * k + 2);
                         for _ in 0..k {
                             let gap = 1 + rng.range(0, unit - 1);
@@ -317,7 +317,7 @@ fn huge(ctx: &mut Ctx) {
                         }
                         v
                     },
-                    6 => { let k = 30 + rng.below(400); gen_runs(&mut rng, k, 3 + rep % 2, n, rep % 2 == 0) },
+                    6 => { let k = 30 + rng.below(if cfg!(miri) { 20 } else { 400 }); gen_runs(&mut rng, k, 3 + rep % 2, n, rep % 2 == 0) },
                     _ => {
                         // Block 0 holds only a first run that starts at 0 (the next run does not fit), then >= 9 blocks:
                         // two blocks have no unset bits before them.
@@ -327,7 +327,7 @@ fn huge(ctx: &mut Ctx) {
                         if n < first + gap + l2 + 100_000 { Vec::new() } else {
                             let mut v = vec![(0, first), (first + gap, l2)];
                             let mut pos = first + gap + l2;
-                            for _ in 0..(300 + rng.below(300)) {
+                            for _ in 0..(if cfg!(miri) { 300 } else { 300 + rng.below(300) }) {
                                 let g = 1 + rng.below(6);
                                 let l = 1 + rng.below(6);
                                 v.push((pos + g, l));
